@@ -33,7 +33,12 @@ CFG = {
                       "re-serialisation)==encode x, hash==keccak(encode) run on the implementation for every wire type.",
         "level_note": "Model = proto_fmt.rs after the F9 repair (446e7fe: a scalar field whose only records are empty packed chunks "
                       "writes nothing; the unrepaired code panicked at `values[0]`, the model never had that panic) and "
-                      "mux/handshake.rs after the F7 repair (027f5b6: capabilities sorted by id). The typed models of TimeoutQC / Schedule / handshake are tied to the code by "
+                      "mux/handshake.rs after the F7 repair (027f5b6: capabilities sorted by id). The generic value model has no notion of `oneof`: a buffer carrying two members of one oneof "
+                      "is a value of the model, and canonical_raw accepts it and re-orders the members by field number (a "
+                      "last-member-wins parser then sees the other member); no ProtoFmt::build produces such bytes and canonical() "
+                      "only feeds prost's own output, so this is outside the property (the meaning-preservation monitor skips "
+                      "such inputs). canonical_raw also accepts some buffers prost rejects (length prefixes with bits above 2^32 are "
+                      "truncated by quick-protobuf); modelled and compared, not a violation. The typed models of TimeoutQC / Schedule / handshake are tied to the code by "
                       "byte-comparing their encodings with the implementation's, not by a proof that they inhabit the generated "
                       "schema.",
         "harness": "c09",
@@ -46,6 +51,13 @@ CFG = {
                 "names = prost-reflect's view of every message descriptor vs the translator's table; (3) typed conversions "
                 "bitvec, bitvec_read, duration, timestamp, duration_read, sockaddr, sockaddr_read, tqc (insertion orders, "
                 "duplicate keys), schedule (permutations, duplicate key, zero weight, overflow, no leader), muxhs. "
+                "(4) buildcheck = zksync_protobuf_build::Config::generate (the only public route to canonical::check) on 13 small "
+                ".proto texts (maps, implicit presence at several nesting levels, proto2, good ones) vs supportsCanonical on their "
+                "descriptors. Monitors on the implementation: decode(encode x)==x, canonical==encode, decode(prost bytes)==x, "
+                "decode(any re-serialisation)==x, canonical_raw(re-serialisation)==encode x, idempotence, meaning preserved "
+                "as judged by prost-reflect's DynamicMessage, hash==keccak256(encode), TimeoutQC wire order ascending + "
+                "insertion-order independence (bytes and Msg hash), Schedule permutation independence, mux handshake "
+                "determinism, BitVec construction routes, nanos field in 0..10^9, build-time check == restriction. "
                 "distinct = distinct op lines; non-trivial = outcome class differs from the modal class (ok) of the run",
         "trusted": ["the .proto reader in tools/translate.py (cross-checked on every run against prost-reflect / protox descriptors "
                     "by the `schema` ops, message by message)",
